@@ -1,3 +1,4 @@
+import GqlProofs.Gen.Accounted
 import GqlProofs.Validate.WalkBound
 import GqlProofs.Validate.NoPanic
 import GqlProofs.Validate.RuleFuel
@@ -136,3 +137,17 @@ example : validate [valuesOfCorrectType] Witness.schema Witness.docUsed = .ok []
 #print axioms C02_validate_R2a_returns
 #print axioms C02_validate_R2b_returns
 #print axioms C02_validate_default_R2a_returns
+
+/-! ### facts regenerated from /repo's sources on every run (GqlModel/Gen/Facts.lean) -/
+
+/-- Every explicit `panic(` of the library's non-test code is one of the classified sites
+    (`Gen.accountedPanics`): a new panic site breaks this lemma. -/
+theorem C02_gen_panic_sites_accounted :
+    ∀ s ∈ Gql.Gen.panicSites, (Gql.Gen.accountedPanics.lookup s).isSome := by decide
+
+/-- reflect is used only where the model accounts for it -/
+theorem C02_gen_reflect_calls_accounted :
+    ∀ s ∈ Gql.Gen.reflectCalls, s.1 ∈ Gql.Gen.reflectFiles := by decide
+
+/-- the introspection list-depth limit of the model is the source's constant -/
+theorem C02_gen_max_lists_depth : Gql.Gen.maxListsDepth = Gql.Validate.Rules.maxListsDepth := by decide
